@@ -179,7 +179,7 @@ def oracle(rep, case, out):
     if 'err' in out:
         if out['err'] == 'NaN':
             return      # a sampled division by zero, not a typing matter
-        if out['err'] in ('PartialOverlap', 'DisjointError') and 'observation' in sig_cls:
+        if out['err'] in ('PartialOverlap', 'DisjointError') and '"observation"' in json.dumps(case['expr']):
             return      # the rebuilt observation is subject to the admission rules of C06
         rep.oracle_fail('typing:listed_raises:%s:%s' % (sig_cls, out['err']),
                         'documented combination raised %s: %s' % (out['err'], out.get('msg', '')), case, out)
@@ -238,6 +238,8 @@ def gen_tree(rng, depth, want='source'):
             return O.gen_prim(rng, 'source')
         if want == 'unitless':
             return O.gen_prim(rng, rng.choice(['bandpass', 'bandpass', 'reddening', 'extcurve']))
+        if want == 'observation':
+            return gen_obs_leaf(rng)
         return O.gen_scalar(rng, valid=rng.random() < 0.9)
     r = rng.random()
     if want == 'source':
@@ -260,7 +262,33 @@ def gen_tree(rng, depth, want='source'):
         if r < 0.85:
             return {'op': 'div', 'l': gen_tree(rng, depth - 1, 'source'), 'r': gen_tree(rng, depth - 1, 'source')}
         return {'op': rng.choice(['add', 'sub']), 'l': gen_tree(rng, depth - 1, 'unitless'), 'r': gen_tree(rng, depth - 1, rng.choice(['unitless', 'source']))}
+    if want == 'observation':
+        if depth == 0 or r < 0.25:
+            return gen_obs_leaf(rng)
+        if r < 0.5:
+            return {'op': 'mul', 'l': gen_tree(rng, depth - 1, 'observation'), 'r': gen_tree(rng, depth - 1, 'unitless')}
+        if r < 0.8:
+            return {'op': 'mul', 'l': gen_tree(rng, depth - 1, 'observation'), 'r': gen_tree(rng, 0, 'scalar')}
+        if r < 0.92:
+            num = O.gen_scalar(rng, valid=True)
+            while num['scalar'] == 'quantity':      # a Quantity on the left is outside the statement
+                num = O.gen_scalar(rng, valid=True)
+            return {'op': 'mul', 'l': num, 'r': gen_tree(rng, depth - 1, 'observation')}
+        return {'op': rng.choice(OPS), 'l': gen_tree(rng, depth - 1, 'observation'),
+                'r': gen_tree(rng, depth - 1, rng.choice(['source', 'unitless', 'scalar', 'observation']))}
     return O.gen_scalar(rng)
+
+
+def gen_obs_leaf(rng):
+    """an observation operand: a source that covers its bandpass, on a uniform binset"""
+    from . import c07
+    src, band = c07.gen_pair(rng)
+    if src['leaf']['leaf'] == 'empirical':     # tables must span the band to be admitted without force
+        src = {'prim': 'source', 'leaf': {'leaf': 'constflux', 'amp': q(O.dy(rng, 0.25, 8, 3)), 'unit_name': rng.choice(['photlam', 'flam'])}}
+    if band['leaf']['leaf'] == 'empirical' and all(unq(v) == 0 for v in band['leaf']['vals']):
+        band['leaf']['vals'][0] = '1/2'        # an all-zero bandpass has no wavelength range to observe through (C06)
+    lo, step = O.dy(rng, 3000, 5000, 1), O.dy(rng, 10, 100, 2)
+    return {'prim': 'observation', 'src': src, 'band': band, 'binset': qs([lo + i * step for i in range(25)])}
 
 
 def mk_case(rng, expr, K, n=8):
@@ -291,13 +319,13 @@ def run(rep):
     nmatrix = len(cases)
     depth = 6 if thorough else 4
     for _ in range(40000 if thorough else 1500):
-        cases.append(mk_case(rng, gen_tree(rng, rng.randint(1, depth), rng.choice(['source', 'source', 'unitless'])), K,
+        cases.append(mk_case(rng, gen_tree(rng, rng.randint(1, depth), rng.choice(['source', 'source', 'unitless', 'observation'])), K,
                              n=32 if thorough else 8))
     rep.extra['matrix_cases'] = nmatrix
     rep.rule = ('exhaustive matrix: 12 spectrum operands (empirical / analytic / redshifted / flux-conserving redshifted / composite '
                 'source; box and empirical bandpass; reddening law; extinction curve; thermal element; unitless ratio; observation) '
                 'x (those + int, float, NumPy float/int, bool, dimensionless Quantity + 9 invalid operand classes) x 4 operators, '
-                'plus plain numbers on the left of x; then random expression trees of depth <= 4 (6), 8% ill-typed on purpose, '
+                'plus plain numbers on the left of x; then random expression trees (rooted in a source, a unitless spectrum or an observation) of depth <= 4 (6), 8% ill-typed on purpose, '
                 'sampled at 8 (32) wavelengths. Non-trivial: the expression has at least one operator and is not rejected for an invalid scalar.')
 
     def tags(c, o):
@@ -314,7 +342,7 @@ def search(rep, mismatches):
     sub = core.Report(rep.pid, 'thorough', rep.seed + 1)
     rng = sub.rng('c02-search')
     K = O.consts()
-    cases = [mk_case(rng, gen_tree(rng, rng.randint(1, 4), rng.choice(['source', 'unitless'])), K) for _ in range(4000)]
+    cases = [mk_case(rng, gen_tree(rng, rng.randint(1, 4), rng.choice(['source', 'unitless', 'observation'])), K) for _ in range(4000)]
     impl = core.pmap(impl_call, cases)
     for c, o in zip(cases, impl):
         oracle(sub, c, o)
